@@ -94,6 +94,9 @@ class ActionContext(abc.ABC):
         try:
             result = self.trigger_context.evaluate_expression(watch)
             variable_id, log_str = var_processor.process_variable(watch, result)
+            if variable_id.vid is None:
+                # we have already collected the max number of variables, so there is no variable to point at
+                return WatchResult(source, watch, None, "Variable limit reached, value not collected"), {}, log_str
 
             return WatchResult(source, watch, variable_id), var_processor.var_lookup, log_str
         except BaseException as e:
@@ -110,6 +113,10 @@ class ActionContext(abc.ABC):
         """
         var_processor = VariableSetProcessor({}, self.var_cache, self.collection_config)
         variable_id, log_str = var_processor.process_variable(name, variable)
+        if variable_id.vid is None:
+            # we have already collected the max number of variables, so there is no variable to point at
+            return WatchResult(WATCH_SOURCE_CAPTURE, name, None,
+                               "Variable limit reached, value not collected"), {}, log_str
 
         return WatchResult(WATCH_SOURCE_CAPTURE, name, variable_id), var_processor.var_lookup, log_str
 
